@@ -14,8 +14,9 @@ Sub-parsers (`parse_toplevel`, `parse_expression`, `parse_statement`, the list-e
 arbitrary function `sub` on the remaining tokens: the theorems only assume it never "un-reads"
 (`NoUnread`).  Whether a recovery arm consumes the offending token is *not* written here: it is read
 from the source by `extract/c05_parser_loops.py` into `Generated/ParserLoops.lean` on every run.
-Modelling assumption: `parse_toplevel` / `parse_statement` consume the keyword they were dispatched on
-(`assert_and_consume_keyword` with the matching keyword).
+That `parse_toplevel` / `parse_statement` / the member parser / the pattern parser consume the token
+they were dispatched on (and that `assert_and_consume_keyword(k)` consumes a matching keyword) is
+likewise extracted, not assumed.
 -/
 namespace SamVerif.ParserLoops
 open SamVerif.Generated.ParserLoops
@@ -41,7 +42,8 @@ def consumeIf (flag : Bool) (ts : List TK) : List TK := if flag then ts.tail els
 def toplevelLoop (sub : List TK → List TK) : Nat → List TK → Option Unit
   | 0, _ => none
   | _ + 1, [] => some ()                                        -- `EndOfFile => break 'outer`
-  | f + 1, .cls :: rest => toplevelLoop sub f (sub rest)        -- `parse_toplevel`
+  | f + 1, .cls :: rest =>                                      -- `parse_toplevel`: keyword, then whatever
+    toplevelLoop sub f (sub (consumeIf toplevelConsumesKeyword (.cls :: rest)))
   | f + 1, t :: rest =>                                         -- report, maybe consume, loop
     toplevelLoop sub f (consumeIf toplevelOtherConsumes (t :: rest))
 
@@ -57,7 +59,8 @@ def commaLoop (sub : List TK → List TK) : Nat → List TK → Option (List TK)
 def blockLoop (sub : List TK → List TK) : Nat → List TK → Option (List TK)
   | 0, _ => none
   | _ + 1, [] => some []                                         -- EOF: report, return
-  | f + 1, .letK :: rest => blockLoop sub f (sub rest)           -- `parse_statement`
+  | f + 1, .letK :: rest =>                                       -- `parse_statement`: `let`, then whatever
+    blockLoop sub f (sub (consumeIf statementConsumesLet (.letK :: rest)))
   | _ + 1, .rbrace :: rest => some rest                          -- `}`: consume, return
   | f + 1, .semi :: rest => blockLoop sub f (consumeIf blockSemiConsumes (.semi :: rest))
   | f + 1, t :: rest =>
